@@ -97,7 +97,11 @@ def run(prog, tier, res):
             t = b.blocks[bb]["t"]
             if t["k"] == "call" and short(cname(t)) == "Iterator::next":
                 it = unmut(an.terms.operand(t["args"][0]))
-                if any(x == ("param", 2) for x in walk(it)):
+                while it[0] == "call" and short(it[1]) == "IntoIterator::into_iter" and len(it[2]) == 1:
+                    it = unmut(it[2][0])
+                # the loop that consumes the `banks` argument itself (not a loop over data derived from one of its items,
+                # e.g. the sample loop of an inlined calibration helper)
+                if it == ("param", 2) or (it[0] == "call" and it[2] and unmut(it[2][0]) == ("param", 2) and short(it[1]).startswith("Iterator::")):
                     bank_loops.append((tail, head))
     heads = sorted(set(h for _, h in bank_loops))
     if len(heads) != 1:
